@@ -9,7 +9,7 @@ use blsful::vsss_rs::Share;
 use blsful::*;
 use serde_json::json;
 
-pub const RULE: &str = "EXHAUSTIVE for n<=5 (quick) / n<=7 (thorough): every (t,n) with 2<=t<=n, every subset of every size of the n shares, in sorted and in one seeded shuffled order. Sampled above: corners (2,255),(128,255),(254,255),(255,255) [thorough], (2,20),(10,20),(20,20),(3,64) and seeded random pairs, subsets of size t-1,t,t+1,n. Per split (keys from E and random; split and split_with_rng): SecretKey::combine, PublicKey::from_shares, Signature::from_shares for Basic and PoP, both groups, messages from the length classes. >=t distinct shares must give the whole key / public key / byte-identical whole-key signature; <t shares must not (sizes 0,1 must be Err); each partial signature must verify against its own public-key share and against no other participant's (full i x j matrix for n<=7); the reference's own Lagrange interpolation over the share BYTES must give the same scalar / points (independent of vsss-rs). Error catalogue: [], [s], [s,s], [s,s'] with equal identifier, identifier forced to 0, Basic+PoP mixed, MessageAugmentation share signing, (t,n) in {(0,0),(1,1),(1,3),(3,2),(2,256),(256,256),(2,300),(0,5)}. Distinct by (suite,t,n,subset,order,op).";
+pub const RULE: &str = "EXHAUSTIVE for n<=5 (quick) / n<=7 (thorough): every (t,n) with 2<=t<=n, every subset of every size of the n shares, in sorted and in one seeded shuffled order. Sampled above: corners (2,255),(128,255),(254,255),(255,255) [thorough], (2,20),(10,20),(20,20),(3,64) and seeded random pairs, subsets of size t-1,t,t+1,n. Per split (keys from E and random; split and split_with_rng): SecretKey::combine, PublicKey::from_shares, Signature::from_shares for Basic and PoP, both groups, messages from the length classes. >=t distinct shares must give the whole key / public key / byte-identical whole-key signature; <t shares must not (sizes 0,1 must be Err); each partial signature must verify against its own public-key share and against no other participant's (full i x j matrix for n<=7); the reference's own Lagrange interpolation over the share BYTES must give the same scalar / points (independent of vsss-rs). Error catalogue: [], [s], [s,s], [s,s'] with equal identifier, identifier forced to 0, Basic+PoP mixed, MessageAugmentation share signing, (t,n) in {(0,0),(1,1),(1,3),(3,2),(2,256),(256,256),(2,300),(0,5)}. History clusters (2 quick / 8 thorough per group): for one 2-of-3 split every participant's partial signature under Basic and ProofOfPossession (answer: the reference's signature with the share scalar), every partial signature against every public-key share, and the recombination of key, public key and signature, asked in every ordered pair (a,b) as a,b,b,a. Distinct by (suite,t,n,subset,order,op).";
 
 pub fn run(ctx: &mut Ctx) {
     for_both!(run_suite, ctx);
@@ -58,6 +58,13 @@ fn run_suite<C: Suite>(ctx: &mut Ctx) {
     g += 1;
     if ctx.mine(g) {
         errors::<C>(ctx, g);
+    }
+    ctx.require(&format!("{n}/history"));
+    for i in 0..ctx.tier.pick(2, 8) {
+        g += 1;
+        if ctx.mine(g) {
+            history_cluster::<C>(ctx, g, i);
+        }
     }
     let s = format!("every (t,n) with n<={nmax} and every subset of every size (sorted + one shuffled order)");
     if !ctx.exhaustive.contains(&s) {
@@ -317,4 +324,51 @@ fn errors<C: Suite>(ctx: &mut Ctx, g: u64) {
     // message-augmentation partial signing is unsupported and must say so
     let r = ctx.guard("SecretKeyShare::sign", || json!({}), || shares[0].sign(SignatureSchemes::MessageAugmentation, &msg).is_ok());
     case(ctx, "share_sign(MessageAugmentation)", r);
+}
+
+/// One 2-of-3 split, one message: every participant's partial signature under Basic and
+/// ProofOfPossession (answer = the reference's signature with the share scalar), every partial
+/// signature against every public-key share, recombination of key / public key / signature from
+/// two shares - asked in every ordered pair as a, b, b, a.
+fn history_cluster<C: Suite>(ctx: &mut Ctx, g: u64, i: usize) {
+    use super::history::{q, sandwiches, Q};
+    let mut rng = ctx.rng(g);
+    let n = C::NAME;
+    let k = gen::random_scalar(&mut rng);
+    let sk = sk_from_rs::<C>(&k);
+    let msg = gen::message([32usize, 0, 7, 100][i % 4], Content::Random, &mut rng);
+    let Ok(shares) = sk.split(2, 3) else { return };
+    let Ok(pks) = shares.iter().map(|s| s.public_key()).collect::<Result<Vec<PublicKeyShare<C>>, _>>() else { return };
+    type A = Option<Vec<u8>>;
+    let verdict = |b: bool| -> A { Some(vec![b as u8]) };
+    let mut qs: Vec<Q<A>> = Vec::new();
+    let (sharesr, pksr, msgr) = (&shares, &pks, &msg);
+    for s1 in [Scheme::Basic, Scheme::Pop] {
+        let mut partials: Vec<SignatureShare<C>> = Vec::new();
+        for p in 0..3usize {
+            let (_, x) = sk_share_parts::<C>(&shares[p]);
+            let want = refimpl::sign::<C::R>(s1, &x, &msg).enc();
+            qs.push(q(format!("partial-sign/{}/participant-{p}", s1.name()), Some(want), move || sharesr[p].sign(lscheme(s1), msgr).ok().map(|ss| sig_share_parts::<C>(&ss).1)));
+            let Ok(ss) = shares[p].sign(lscheme(s1), &msg) else { return };
+            partials.push(ss);
+        }
+        for p in 0..3usize {
+            for kj in 0..3usize {
+                let ss = partials[p];
+                qs.push(q(format!("partial-verify/{}/signature-{p}-key-share-{kj}", s1.name()), verdict(p == kj), move || verdict(pksr[kj].verify(&ss, msgr).is_ok())));
+            }
+        }
+        let two = vec![partials[0], partials[2]];
+        let whole = refimpl::sign::<C::R>(s1, &k, &msg).enc();
+        qs.push(q(format!("recombine/signature-{}", s1.name()), Some(whole), move || Signature::<C>::from_shares(&two).ok().map(|sg| sig_pt_bytes(&sg))));
+    }
+    let two_sk = vec![shares[1].clone(), shares[2].clone()];
+    qs.push(q("recombine/secret-key".to_string(), Some(k.to_be_bytes().to_vec()), move || SecretKey::<C>::combine(&two_sk).ok().map(|x| x.to_be_bytes().to_vec())));
+    let two_pk = vec![pks[0], pks[1]];
+    let pkb = pk_bytes(&sk.public_key());
+    qs.push(q("recombine/public-key".to_string(), Some(pkb), move || PublicKey::<C>::from_shares(&two_pk).ok().map(|x| pk_bytes(&x))));
+    let d = || json!({"suite":n,"sk":hex::encode(k.to_be_bytes()),"msg":crate::hx(&msg),"t":2,"n":3});
+    let mut cid = k.to_be_bytes().to_vec();
+    cid.extend_from_slice(&msg);
+    sandwiches(ctx, "C08", &format!("{n}/history"), "partials", &cid, &d, &qs);
 }
